@@ -584,7 +584,15 @@ def py_int(E, x=0):
         if z3.is_int(x):
             return x
         raise Unsupported("int() of symbolic non-int")
-    return int(x)
+    if isinstance(x, SymStr):
+        if x.kind == "int":
+            return x.value
+        raise Unsupported("int() of the string of a symbolic non-integer")
+    try:
+        return int(x)
+    except (ValueError, TypeError) as e:
+        # the interpreted program raises exactly this
+        raise_(E, type(e).__name__, str(e))
 
 
 def py_sum(E, xs, start=0):
